@@ -49,7 +49,8 @@ structure Case where
   ecdhe : Bool
   resumed : Bool
   auth : String
-  word : List Kind
+  recs : List (List Kind)
+  word : List Kind     -- the records flattened: the sequence of message kinds
 
 def parseCase (c : String) : Option Case := do
   let t := tokens c
@@ -58,11 +59,12 @@ def parseCase (c : String) : Option Case := do
   let suite ← kv t "suite"
   let mode ← kv t "mode"
   let auth ← kv t "auth"
-  let w ← (kv t "word").bind parseWord
+  let recs ← (kv t "word").bind parseRecords
+  let w := recs.flatten
   if stack != "tlcp" && stack != "dtlcp" then none
   if role != "client" && role != "server" then none
   if mode != "full" && mode != "resumed" then none
-  pure { stack, role, ecdhe := suite.startsWith "ecdhe", resumed := mode == "resumed", auth, word := w }
+  pure { stack, role, ecdhe := suite.startsWith "ecdhe", resumed := mode == "resumed", auth, recs := recs, word := w }
 
 /-- documented policy semantics: a certificate is requested for every policy but NoClientCert,
 and always with an ECDHE suite; "no certificate" is acceptable for NoClientCert / RequestClientCert
@@ -100,7 +102,7 @@ def judge (cs o : String) : Option Verdict := do
   let c ← parseCase cs
   let sk := if c.stack == "dtlcp" then skeletonDTLCP else skeletonTLCP
   let root := if c.role == "client" then clientRoot else serverRoot
-  let model := match observe sk root (cfgOf c) c.word with
+  let model := match observe sk root (cfgOf c) c.recs with
     | some ob => showObs ob
     | none => "model-unavailable"
   let flows := stdFlows c
@@ -108,7 +110,7 @@ def judge (cs o : String) : Option Verdict := do
   let spec : Option (String × String) :=
     match ot.head?, kvNat ot "at" with
     | some "completed", some i =>
-      let pre := c.word.take (i + 1)
+      let pre := (c.recs.take (i + 1)).flatten
       if StandardFlow.inLangI flows pre then none
       else
         -- name the F1 shape: legal once a ServerKeyExchange is put back after the Certificate
@@ -118,10 +120,14 @@ def judge (cs o : String) : Option Verdict := do
           | (a, []) => a
         if c.role == "client" && !c.resumed && StandardFlow.inLangI flows patched then
           some ("no-skx", s!"client completed after {showWord pre}: no ServerKeyExchange, the server never proved possession of its signing key")
+        else if StandardFlow.inLangI flows core then
+          some ("too-many-ignorable", s!"{c.role} completed after {showWord pre}: more than {StandardFlow.maxIgnorable} consecutive ignorable records were tolerated")
+        else if (core.dropWhile (· != Kind.finished)).contains Kind.ccs then
+          some ("finished-before-ccs", s!"{c.role} completed after {showWord pre}: the peer's Finished was sent before ChangeCipherSpec, unprotected")
         else some ("illegal-order", s!"{c.role} completed after {showWord pre}, which is not a legal {if c.resumed then "resumed" else "full"} flow")
     | some h, _ =>
       if h == "failed" || h == "pending" then
-        match firstLegal flows c.word with
+        match (if c.recs.all (fun r => r.length == 1) then firstLegal flows c.word else none) with
         | some j => some ("rejected-legal", s!"{c.role} did not complete on the legal flow {showWord (c.word.take (j + 1))} (observed {o})")
         | none => none
       else some ("shape", s!"unexpected observation {o}")
